@@ -98,7 +98,7 @@ func (m *multi) observe() *obs {
 			o.locked[t.TaskId] = t.Locked
 			if gt, err := ci.rpc.GetTask(ctx, &pb.GetTaskRequest{TaskId: t.TaskId}); err == nil && gt != nil && gt.Task != nil {
 				id := gt.Task.EnvId
-				if id == "" || strings.Trim(id, "0") == "" || !t.Locked {
+				if id == "" || strings.Trim(id, "0") == "" {
 					id = ""
 				}
 				o.owner[t.TaskId] = id
@@ -400,7 +400,12 @@ func (m *multi) runOwnership() {
 					m.cleanupIds()
 				}
 				if m.prop == "C06" && c.F(8, "executor-lost") == 7 {
+					var tids []string
 					for tid := range e.owned {
+						tids = append(tids, tid)
+					}
+					sort.Strings(tids)
+					for _, tid := range tids {
 						if st := m.s.mesos.Task(tid); st != nil && st.Alive() {
 							c.Count("fault.executor_lost_before_destroy")
 							m.s.mesos.ExecutorLost(st.ExecID)
@@ -489,7 +494,7 @@ func (m *multi) checkOwnershipHistory(final *obs) {
 				continue
 			}
 			beingDestroyed := e.destroyReqSeq != 0 && k.Seq >= e.destroyReqSeq
-			if e.Created && !beingDestroyed && final.envs[e.ID] != "" && final.owner[tid] == e.ID {
+			if e.Created && !beingDestroyed && (final.envs[e.ID] != "" || e.destroyReqSeq != 0) && k.Seq > e.createdAtSeq {
 				m.viol("C04", "kill-owned-task", "kill-of-owned-task", "task %s received a KILL (seq %d) while owned by environment %d which nobody asked to destroy", tid, k.Seq, e.Idx)
 			}
 		}
